@@ -1,6 +1,7 @@
 import ExprModel.Proofs.CheckerSpec
 import ExprModel.Proofs.SoundFrag
 import ExprModel.Proofs.SoundAsm
+import ExprModel.Proofs.NameRes
 /-
 C03 — Static typing is sound and rejects ill-typed expressions.
 
@@ -454,8 +455,15 @@ theorem as_kind_exact_partial (cfg : CheckCfg) (c : Spec.SCfg) (henv : EnvConfor
 `inFrag2` adds to the scalar fragment: the closure variable `#`, `in` / `not in` on a slice, the range
 `..`, `**`, indexing and slicing a slice by integers, `len`, array literals (a `[]interface{}` of which only
 the shape is claimed: usable under `in` and `len`), the conditional with branches of one value type, the
-predicate builtins `all none any one count` with a closure, and (`inFrag2 true`) calls of environment
-functions.  `typed2` is "every operand has a static type the construct's rule is sound for": scalar
+predicate builtins `all none any one count` with a closure, member access `x.f` / `x?.f` on values of
+struct or pointer-to-struct type (name resolution of the current code, `cfg.dn = NDefects.asIs`; value typing
+`Conf`: every member the checker resolves can be fetched and conforms, so pointers typed as structs are
+not nil), `map[string]interface{}` values (member, index, `in`, `len`; the result an `interface{}`, of
+which nothing is claimed but that the access does not fail), indexing a `[]interface{}`, `in` on structs,
+map literals, and — behind hypotheses on the world, switched on by the two flags of `inFrag2` — calls of
+environment functions (`WorldConforms`) and `matches` (`RegexTotal`: the patterns met compile; `Spec.eval`
+reports a pattern that does not compile in the type class, although it depends on the pattern's value) and
+method calls `x.m(…)` on struct-typed receivers (`MethodsConform`).  `typed2` is "every operand has a static type the construct's rule is sound for": scalar
 operands for the scalar operators and the predicate's body, a slice of scalars (`[]int`, `[]string`, …)
 where a collection is expected, an integer (not `interface{}`) index.  This excludes, explicitly, the constructs
 behind the known findings: the loose index rule (index typed `interface{}`), `filter`/`map` with the static
@@ -470,7 +478,8 @@ scalars), evaluating the annotated tree with the reference evaluator yields a va
 slice: with the static element tag and all elements of the element type — or fails with a
 value-dependent error; never with a type error. -/
 theorem check_sound_collections_partial (cfg : CheckCfg) (c : Spec.SCfg) (henv : EnvConforms2 cfg c.env)
-    (n n' : Node) (τ : OTy) (V : VTy) (hfrag : inFrag2 false n = true) (hstatic : typed2 cfg [] n = true)
+    (hdn : cfg.dn = NDefects.asIs)
+    (n n' : Node) (τ : OTy) (V : VTy) (hfrag : inFrag2 {} n = true) (hstatic : typed2 cfg [] n = true)
     (h : check cfg n = .ok n' τ) (hV : vtyOf τ = some V) (ctx : Spec.Ctx) (s : Spec.SState) :
     match (Spec.eval c ctx n' s).1 with
     | .ok v => ValOfV v V
@@ -478,7 +487,7 @@ theorem check_sound_collections_partial (cfg : CheckCfg) (c : Spec.SCfg) (henv :
   have hs := accepted_type_is_synth cfg n n' τ h
   obtain ⟨hn', _, _, _⟩ := (check_ok_iff cfg n n' τ).1 h
   obtain ⟨_, _, hev⟩ := frag2_sound (E := ValueDep) (Or.inl rfl) (Or.inr (Or.inl rfl)) (Or.inr (Or.inr rfl))
-    cfg c henv false (fun h => by cases h) n [] hfrag hstatic τ V hs hV {} rfl
+    cfg c henv hdn {} (fun h => by cases h) (fun h => by cases h) (fun h => by cases h) n [] hfrag hstatic τ V hs hV {} rfl
   rw [hn'] at hev
   exact hev ctx trivial s
 
@@ -490,8 +499,11 @@ parameter's value type and which the checker does not retype, or a tree of integ
 numeric parameter (`Ff(1)`, `Ff(-(1 + 2))`); the retyped non-literal arguments of the known finding
 (`Ff(+I)`, `Fi(F64 + 1)`) are excluded by this predicate. -/
 theorem check_sound_calls_partial (cfg : CheckCfg) (c : Spec.SCfg) (henv : EnvConforms2 cfg c.env)
-    (hworld : WorldConforms (fun e => ValueDep e ∨ e = .call) cfg c)
-    (n n' : Node) (τ : OTy) (V : VTy) (hfrag : inFrag2 true n = true) (hstatic : typed2 cfg [] n = true)
+    (hdn : cfg.dn = NDefects.asIs)
+    (fo : FragOpts) (hworld : fo.calls = true → WorldConforms (fun e => ValueDep e ∨ e = .call) cfg c)
+    (hregex : fo.regex = true → RegexTotal c)
+    (hmeth : fo.methods = true → MethodsConform (fun e => ValueDep e ∨ e = .call) cfg c)
+    (n n' : Node) (τ : OTy) (V : VTy) (hfrag : inFrag2 fo n = true) (hstatic : typed2 cfg [] n = true)
     (h : check cfg n = .ok n' τ) (hV : vtyOf τ = some V) (ctx : Spec.Ctx) (s : Spec.SState) :
     match (Spec.eval c ctx n' s).1 with
     | .ok v => ValOfV v V
@@ -500,7 +512,7 @@ theorem check_sound_calls_partial (cfg : CheckCfg) (c : Spec.SCfg) (henv : EnvCo
   obtain ⟨hn', _, _, _⟩ := (check_ok_iff cfg n n' τ).1 h
   obtain ⟨_, _, hev⟩ := frag2_sound (E := fun e => ValueDep e ∨ e = .call) (Or.inl (Or.inl rfl))
     (Or.inl (Or.inr (Or.inl rfl))) (Or.inl (Or.inr (Or.inr rfl)))
-    cfg c henv true (fun _ => hworld) n [] hfrag hstatic τ V hs hV {} rfl
+    cfg c henv hdn fo hworld hregex hmeth n [] hfrag hstatic τ V hs hV {} rfl
   rw [hn'] at hev
   exact hev ctx trivial s
 
@@ -570,7 +582,8 @@ private theorem as_kind_of_eval (E : ErrClass → Prop) (cfg : CheckCfg) (c : Sp
 `int64`, under `AsFloat64` exactly a `float64`, or the run fails with a value-dependent error (`τ` scalar: not an
 `interface{}`-typed result, which the directives also allow). -/
 theorem as_kind_exact_collections_partial (cfg : CheckCfg) (c : Spec.SCfg) (henv : EnvConforms2 cfg c.env)
-    (n n' : Node) (τ : OTy) (hfrag : inFrag2 false n = true) (hstatic : typed2 cfg [] n = true)
+    (hdn : cfg.dn = NDefects.asIs)
+    (n n' : Node) (τ : OTy) (hfrag : inFrag2 {} n = true) (hstatic : typed2 cfg [] n = true)
     (h : check cfg n = .ok n' τ) (hτs : ScalarT τ) :
     (cfg.expect = .bool → match (Spec.run c none n').1 with
       | .ok v => ∃ b, v = .bool b | .error e => ValueDep e) ∧
@@ -579,12 +592,15 @@ theorem as_kind_exact_collections_partial (cfg : CheckCfg) (c : Spec.SCfg) (henv
     (cfg.expect = .float64 → match (Spec.run c (some 1) n').1 with
       | .ok v => ∃ x, v = .f64 x | .error e => ValueDep e) :=
   as_kind_of_eval ValueDep cfg c n n' τ h hτs
-    (check_sound_collections_partial cfg c henv n n' τ (.sc τ.kind) hfrag hstatic h (vtyOf_scalar hτs) [] {})
+    (check_sound_collections_partial cfg c henv hdn n n' τ (.sc τ.kind) hfrag hstatic h (vtyOf_scalar hτs) [] {})
 
 /-- the same with calls of environment functions (hypothesis `WorldConforms`) -/
 theorem as_kind_exact_calls_partial (cfg : CheckCfg) (c : Spec.SCfg) (henv : EnvConforms2 cfg c.env)
-    (hworld : WorldConforms (fun e => ValueDep e ∨ e = .call) cfg c)
-    (n n' : Node) (τ : OTy) (hfrag : inFrag2 true n = true) (hstatic : typed2 cfg [] n = true)
+    (hdn : cfg.dn = NDefects.asIs)
+    (fo : FragOpts) (hworld : fo.calls = true → WorldConforms (fun e => ValueDep e ∨ e = .call) cfg c)
+    (hregex : fo.regex = true → RegexTotal c)
+    (hmeth : fo.methods = true → MethodsConform (fun e => ValueDep e ∨ e = .call) cfg c)
+    (n n' : Node) (τ : OTy) (hfrag : inFrag2 fo n = true) (hstatic : typed2 cfg [] n = true)
     (h : check cfg n = .ok n' τ) (hτs : ScalarT τ) :
     (cfg.expect = .bool → match (Spec.run c none n').1 with
       | .ok v => ∃ b, v = .bool b | .error e => ValueDep e ∨ e = .call) ∧
@@ -593,7 +609,7 @@ theorem as_kind_exact_calls_partial (cfg : CheckCfg) (c : Spec.SCfg) (henv : Env
     (cfg.expect = .float64 → match (Spec.run c (some 1) n').1 with
       | .ok v => ∃ x, v = .f64 x | .error e => ValueDep e ∨ e = .call) :=
   as_kind_of_eval (fun e => ValueDep e ∨ e = .call) cfg c n n' τ h hτs
-    (check_sound_calls_partial cfg c henv hworld n n' τ (.sc τ.kind) hfrag hstatic h (vtyOf_scalar hτs) [] {})
+    (check_sound_calls_partial cfg c henv hdn fo hworld hregex hmeth n n' τ (.sc τ.kind) hfrag hstatic h (vtyOf_scalar hτs) [] {})
 
 -- the hypotheses are satisfiable and not vacuous
 example : WellTyped (cfgWith .repaired) (.binary {} "+" (ident "I") (.int {} 2)) ∧
@@ -623,20 +639,20 @@ def exprArr : Node :=
     (.binary {} "==" (.builtin {} "len" [.slice {} (.cond {} (.binary {} ">" (ident "I") (.int {} 1)) (ident "Ints")
       (.binary {} ".." (.int {} 1) (.int {} 3))) (some (.int {} 0)) (some (.int {} 1))]) (.int {} 1))
 
-example : inFrag2 false exprArr = true ∧ typed2 (cfgWith .asIs) [] exprArr = true ∧
+example : inFrag2 {} exprArr = true ∧ typed2 (cfgWith .asIs) [] exprArr = true ∧
     (check (cfgWith .asIs) exprArr).okType = some boolTy := by
   decide +kernel
 
-example : inFrag2 false exprColl = true ∧ typed2 (cfgWith .asIs) [] exprColl = true ∧
+example : inFrag2 {} exprColl = true ∧ typed2 (cfgWith .asIs) [] exprColl = true ∧
     (check (cfgWith .asIs) exprColl).okType = some boolTy ∧
-    inFrag2 true exprFfLit = true ∧ typed2 (cfgWith2 .asIs) [] exprFfLit = true ∧
+    inFrag2 { calls := true } exprFfLit = true ∧ typed2 (cfgWith2 .asIs) [] exprFfLit = true ∧
     (check (cfgWith2 .asIs) exprFfLit).okType = some (some (.num .float64)) ∧
-    inFrag2 true exprFsCond = true ∧ typed2 (cfgWith .asIs) [] exprFsCond = true ∧
+    inFrag2 { calls := true } exprFsCond = true ∧ typed2 (cfgWith .asIs) [] exprFsCond = true ∧
     (check (cfgWith .asIs) exprFsCond).okType = some (some .string) ∧
     -- the excluded constructs are outside the predicates
     -- `filter`: in the fragment under the documented rule (`[]interface{}`), not under the code's (`[]T`)
     typed2 (cfgWith .asIs) [] exprFilter = false ∧ typed2 (cfgWith .repaired) [] exprFilter = true ∧
-    inFrag2 false exprFilter = true ∧ typed2 (cfgWith .asIs) [] exprFs1 = false ∧
+    inFrag2 {} exprFilter = true ∧ typed2 (cfgWith .asIs) [] exprFs1 = false ∧
     typed2 (cfgWith2 .asIs) [] exprFfPlusI = false ∧
     typed2 (cfgWith3 .asIs) [] exprAnyTimes1 = false ∧ typed2 (cfgWith .asIs) [] exprIntsA = false := by
   decide +kernel
@@ -736,7 +752,171 @@ theorem sound_hypotheses_witness :
     rw [h] at this
     simpa [CheckResult.okType] using this
   subst hτ
-  exact check_sound_calls_partial (cfgWith2 .asIs) sampleSCfg sample_env (sample_world _) exprFfLit n' _
+  exact check_sound_calls_partial (cfgWith2 .asIs) sampleSCfg sample_env rfl { calls := true } (fun _ => sample_world _)
+    (fun h => by cases h) (fun h => by cases h) exprFfLit n' _
     (.sc (.num .float64)) (by decide +kernel) (by decide +kernel) h (by decide) ctx s
+
+/-! ### members of struct-typed values -/
+
+def tZA : Ty := .named "main.ZA" [] (.struct [fld "X" tInt, fld "Y" .string])
+/-- `struct { St ZA; PSt *ZA; I int; Sts []ZA }` -/
+def envTy4 : Ty := .named "main.E4" [] (.struct [fld "St" tZA, fld "PSt" (.ptr tZA), fld "I" tInt, fld "Sts" (.slice tZA)])
+def cfgWith4 (dt : TDefects) : CheckCfg :=
+  { types := createTypesTable .asIs id { ty := some envTy4 }, strict := true, dt := dt }
+
+/-- `St.X + PSt.X > I and PSt?.Y == "a"` -/
+def exprMembers : Node :=
+  .binary {} "and"
+    (.binary {} ">" (.binary {} "+" (.prop {} (ident "St") "X" false) (.prop {} (ident "PSt") "X" false)) (ident "I"))
+    (.binary {} "==" (.prop {} (ident "PSt") "Y" true) (.str {} "a"))
+
+example : inFrag2 {} exprMembers = true ∧ typed2 (cfgWith4 .asIs) [] exprMembers = true ∧
+    (check (cfgWith4 .asIs) exprMembers).okType = some boolTy ∧
+    -- a member of an interface-typed or map-typed receiver is outside the predicate
+    typed2 (cfgWith3 .asIs) [] (.prop {} (ident "Any") "x" false) = false ∧
+    typed2 (cfgWith .asIs) [] (.prop {} (ident "MSI") "k" false) = false := by
+  decide +kernel
+
+/-- `struct { MA map[string]interface{}; Anys []interface{}; St ZA; Str string }` -/
+def envTy5 : Ty := .named "main.E5" [] (.struct [fld "MA" (.map .string interfaceType), fld "Anys" (.slice interfaceType),
+  fld "St" tZA, fld "Str" .string])
+def cfgWith5 (dt : TDefects) : CheckCfg :=
+  { types := createTypesTable .asIs id { ty := some envTy5 }, strict := true, dt := dt }
+
+/-- `Str in MA and "X" in St and len({a: MA.k, "b": Anys[0], c: MA["k"]}) == len(MA)` -/
+def exprMaps : Node :=
+  .binary {} "and" (.binary {} "and" (.binary {} "in" (ident "Str") (ident "MA")) (.binary {} "in" (.str {} "X") (ident "St")))
+    (.binary {} "==" (.builtin {} "len" [.map {} [.pair {} (.str {} "a") (.prop {} (ident "MA") "k" false),
+        .pair {} (.str {} "b") (.index {} (ident "Anys") (.int {} 0)), .pair {} (.str {} "c") (.index {} (ident "MA") (.str {} "k"))]])
+      (.builtin {} "len" [ident "MA"]))
+
+example : inFrag2 {} exprMaps = true ∧ typed2 (cfgWith5 .asIs) [] exprMaps = true ∧
+    (check (cfgWith5 .asIs) exprMaps).okType = some boolTy ∧
+    -- an interface-typed value under an operator stays outside; so does a member of a typed map (`MSI.k`: the
+    -- model's value universe yields nil, not the element's zero value, for a missing key)
+    typed2 (cfgWith5 .asIs) [] (.binary {} "+" (.index {} (ident "Anys") (.int {} 0)) (.int {} 1)) = false ∧
+    typed2 (cfgWith .asIs) [] (.index {} (ident "MSI") (.str {} "k")) = false := by
+  decide +kernel
+
+/-- `Str matches "^a" and not (St.Y matches Str)` over `envTy5` -/
+def exprMatches : Node :=
+  .binary {} "and" (.matches {} true (ident "Str") (.str {} "^a"))
+    (.unary {} "not" (.matches {} false (.prop {} (ident "St") "Y" false) (ident "Str")))
+
+example : inFrag2 { regex := true } exprMatches = true ∧ inFrag2 {} exprMatches = false ∧
+    typed2 (cfgWith5 .asIs) [] exprMatches = true ∧
+    (check (cfgWith5 .asIs) exprMatches).okType = some boolTy := by
+  decide +kernel
+
+/-- `type ZM struct { N int }` with `func (ZM) Add(a, b int) int` and a function-typed field -/
+def tZM : Ty := .named "main.ZM" [.mk "Add" (.func [tInt, tInt] false [tInt]) false]
+  (.struct [fld "N" tInt, fld "F" (.func [.string] false [.string])])
+/-- `struct { M ZM; PM *ZM; I int }` -/
+def envTy6 : Ty := .named "main.E6" [] (.struct [fld "M" tZM, fld "PM" (.ptr tZM), fld "I" tInt])
+def cfgWith6 (dt : TDefects) : CheckCfg :=
+  { types := createTypesTable .asIs id { ty := some envTy6 }, strict := true, dt := dt }
+
+/-- `M.Add(I, 2) + PM.Add(1, M.N) > 0 and M.F("a") == "a"` -/
+def exprMethods : Node :=
+  .binary {} "and"
+    (.binary {} ">" (.binary {} "+" (.method {} (ident "M") "Add" [ident "I", .int {} 2] false)
+      (.method {} (ident "PM") "Add" [.int {} 1, .prop {} (ident "M") "N" false] false)) (.int {} 0))
+    (.binary {} "==" (.method {} (ident "M") "F" [.str {} "a"] false) (.str {} "a"))
+
+example : inFrag2 { methods := true } exprMethods = true ∧ inFrag2 {} exprMethods = false ∧
+    typed2 (cfgWith6 .asIs) [] exprMethods = true ∧
+    (check (cfgWith6 .asIs) exprMethods).okType = some boolTy ∧
+    -- a wrong argument type or an unknown method is outside
+    typed2 (cfgWith6 .asIs) [] (.method {} (ident "M") "Add" [.str {} "a", .int {} 2] false) = false ∧
+    typed2 (cfgWith6 .asIs) [] (.method {} (ident "I") "Add" [] false) = false := by
+  decide +kernel
+
+private theorem zaFields (name : String) :
+    fieldTypeT .asIs (some tZA) name = if name = "X" then some tInt else if name = "Y" then some .string else none := by
+  by_cases h1 : name = "X"
+  · subst h1; decide +kernel
+  · by_cases h2 : name = "Y"
+    · subst h2; decide +kernel
+    · have h1' : ¬ "X" = name := fun h => h1 h.symm
+      have h2' : ¬ "Y" = name := fun h => h2 h.symm
+      have hdep : tZA.depth = 3 := by decide +kernel
+      have hd : tZA.deref = tZA := by decide +kernel
+      have hk : tZA.kind = .struct := by decide +kernel
+      have l0 : levelFields 0 tZA = [fld "X" tInt, fld "Y" .string] := by decide +kernel
+      have l1 : levelFields 1 tZA = [] := by decide +kernel
+      have l2 : levelFields 2 tZA = [] := by decide +kernel
+      have l3 : levelFields 3 tZA = [] := by decide +kernel
+      simp only [fieldTypeT, hdep, h1, h2, if_false]
+      rw [C16.fieldType_repaired_succ, hd, hk]
+      simp [reflField, hdep, searchLevels, l0, l1, l2, l3, List.filter, fld, Field.name, h1', h2']
+
+private theorem zaMethods (name : String) : methodTarget .asIs (some tZA) name = none := by
+  have hms : methodSet tZA = [] := by decide +kernel
+  have hdep : tZA.depth = 3 := by decide +kernel
+  have hd : tZA.derefOnce = tZA := by decide +kernel
+  have hk : tZA.kind = .struct := by decide +kernel
+  by_cases h1 : name = "X"
+  · subst h1; decide +kernel
+  · by_cases h2 : name = "Y"
+    · subst h2; decide +kernel
+    · have h1' : ¬ "X" = name := fun h => h1 h.symm
+      have h2' : ¬ "Y" = name := fun h => h2 h.symm
+      have l0 : levelFields 0 tZA = [fld "X" tInt, fld "Y" .string] := by decide +kernel
+      have l1 : levelFields 1 tZA = [] := by decide +kernel
+      have l2 : levelFields 2 tZA = [] := by decide +kernel
+      have l3 : levelFields 3 tZA = [] := by decide +kernel
+      simp [methodTarget, methodTypeT, methodType, methodByName, hms, hdep, hd, hk, NDefects.asIs, reflField, searchLevels,
+        l0, l1, l2, l3, List.filter, fld, Field.name, h1', h2']
+
+/-- the conformance hypothesis on struct values is satisfiable: a `ZA` value conforms to the type `ZA`
+to every depth -/
+theorem struct_conforms_witness :
+    ValOfV (.struct "main.ZA" false [("X", .int .int 1), ("Y", .str "a")]) (.obj (some tZA)) := by
+  intro n
+  cases n with
+  | zero => trivial
+  | succ n =>
+    have hV : vtyOf (some tZA) = some (.obj (some tZA)) := by decide +kernel
+    simp only [Conf, hV]
+    refine ⟨_, _, _, rfl, ?_, ?_⟩
+    · intro name τ hf
+      rw [zaFields] at hf
+      by_cases h1 : name = "X"
+      · subst h1
+        simp only [if_true] at hf
+        cases hf
+        refine ⟨.int .int 1, fun ns => by cases ns <;> rfl, ?_⟩
+        cases n with
+        | zero => trivial
+        | succ n =>
+          have : vtyOf (some tInt) = some (.sc (.num .int)) := by decide
+          simp only [Conf, this]
+          exact ⟨1, rfl⟩
+      · by_cases h2 : name = "Y"
+        · subst h2
+          simp (config := {decide := true}) only [if_true, if_false] at hf
+          cases hf
+          refine ⟨.str "a", fun ns => by cases ns <;> rfl, ?_⟩
+          cases n with
+          | zero => trivial
+          | succ n =>
+            have : vtyOf (some Ty.string) = some (.sc .string) := by decide
+            simp only [Conf, this]
+            exact ⟨"a", rfl⟩
+        · simp only [h1, h2, if_false] at hf
+          cases hf
+    · intro name fn im h
+      rw [zaMethods] at h
+      cases h
+
+-- `MethodsConform` is satisfiable for every configuration (a world whose functions all panic), and so not
+-- contradictory; `RegexTotal` likewise (a world whose matcher accepts every pattern)
+example (cfg : CheckCfg) : MethodsConform (fun e => ValueDep e ∨ e = .call) cfg
+    { sampleSCfg with world := { sampleWorld with call := fun _ _ => .error .call } } :=
+  fun _ _ _ _ _ _ _ _ _ _ _ _ _ _ _ _ _ _ _ _ _ _ => Or.inr rfl
+
+-- `RegexTotal` is satisfiable (a world whose matcher accepts every pattern)
+example : RegexTotal { sampleSCfg with world := { sampleWorld with regexMatch := fun _ _ => some false } } :=
+  fun _ _ => rfl
 
 end ExprModel.C03
